@@ -156,7 +156,8 @@ func c10Call(cs *core.Case, p rtcp.Packet, want []uint32, aspect string, det fun
 func runC10(c *core.Ctx) {
 	c.Section("values", c.N(800000, 100000000), func(cs *core.Case) {
 		r := cs.R
-		p := valueOf(cs, gen.Opts{Small: r.Chance(1, 2), NoBig: true})
+		// a deep copy: every SSRC slot gets its own tag below, so no object may sit at two positions
+		p := clonePacket(valueOf(cs, gen.Opts{Small: r.Chance(1, 2), NoBig: true}))
 		k := gen.KindOf(p)
 		want := tagSSRCs(r, p)
 		det := func() core.W { return core.W{"type": k.String(), "value": vdump(p)} }
